@@ -5,8 +5,8 @@ THEOREMS = ["c17_type_attributes", "c17_kind_names", "c17_other_kinds_do_not_get
             "c17_default_marker_is_the_arguments", "c17_missing_field_without_default_is_rejected",
             "c17_missing_field_with_default_is_accepted"]
 THEOREMS_T = ["c17_translated_contract_enum_message", "c17_translated_interface_enum_message", "c17_translated_struct_message",
-              "c17_translated_struct_message_absent", "c17_translated_kept_lines",
-              "c17_translated_forwarded_lines_are_collected_in_order"]
+              "c17_translated_struct_message_absent", "c17_translated_kept_lines"]
+THEOREMS_P = ["c17_translated_forwarded_lines_are_collected_in_order"]
 
 
 def check(run, replay=None):
@@ -15,4 +15,4 @@ def check(run, replay=None):
                 "vs the placement written in the program; L2: documents lacking one field sent to compiled messages, accepted iff the "
                 "argument carries serde(default) or is an Option; non-trivial = distinct program / document")
     return msgprops.check(run, "C17", "Props/C17", THEOREMS, {"c03": True, "c17": True}, replay,
-                          translated=("Props/C17T", THEOREMS_T))
+                          translated=[("Props/C17T", THEOREMS_T), ("Props/C17P", THEOREMS_P)])
